@@ -21,6 +21,8 @@ class Ver:
         self.info = {v: tuple(facts["interp"][v]["version_info"]) for v in facts["supported"]}
         self.all: VSet = frozenset(self.info)
         self.opmap = {v: facts["interp"][v]["opmap"] for v in self.info}
+        # names that can actually occur in bytecode / dis output (no pseudo-instructions)
+        self.real = {v: set(facts["interp"][v]["real_opnames"]) for v in self.info}
 
     # ------------------------------------------------------------ conditions
     def _vi_compare(self, node: ast.Compare, v: str) -> Optional[bool]:
@@ -109,7 +111,7 @@ class Ver:
                     ):
                         names = [x.value for x in right.elts]
                     if names is not None and isinstance(op, (ast.Eq, ast.In)):
-                        if not any(n in self.opmap[v] for n in names):
+                        if not any(n in self.real[v] for n in names):
                             return False
                         return None
         return None
